@@ -3,5 +3,6 @@
 package main
 
 import (
+	_ "verifharness/comp/codec"
 	_ "verifharness/comp/csync"
 )
